@@ -183,6 +183,11 @@ def navigate (H : Heap) : Int → List Nat → Int
 inductive Ctx where
   | assign | define | arg | result | rangeValue | rangeOperand | send | recv | mapStore | mapLoad
   | elemStore | fieldStore | ptrStore | litElem | box | unbox | recvValue | methodValue
+  /-- invocation of a method value `f := x.m; f()`: the callee's value receiver is initialised from the bound receiver -/
+  | boundCall
+  /-- value-receiver method invoked through an interface (`var i I = x; i.m()`, also `I = &x`): the callee's receiver is
+      initialised from the value held by (or pointed to from) the interface -/
+  | ifaceCall
 deriving DecidableEq, Repr
 
 inductive CtxKind where
@@ -193,7 +198,8 @@ deriving DecidableEq, Repr
 
 def Ctx.kind : Ctx → CtxKind
   | .assign | .elemStore | .fieldStore | .ptrStore => .inPlace
-  | .define | .arg | .rangeValue | .rangeOperand | .send | .mapStore | .litElem | .box | .recvValue | .methodValue => .newLocation
+  | .define | .arg | .rangeValue | .rangeOperand | .send | .mapStore | .litElem | .box | .recvValue | .methodValue
+  | .boundCall | .ifaceCall => .newLocation
   | .result | .recv | .mapLoad | .unbox => .temporary
 
 /-- Does the translator emit `$clone(…)` when a value of array/struct type flows through the context?
@@ -213,10 +219,15 @@ def cloneAt : Ctx → Bool
   | .box => false           -- expressions.go:1318-1323 `new T(x)` / `new x.constructor.elem(x)` (no `$clone`)
   | .recvValue => true      -- expressions.go:963 makeReceiver
   | .methodValue => true    -- expressions.go:616 `$methodVal(makeReceiver(e), …)` → :963
+  | .boundCall => false     -- prelude.js:119-132 `$methodVal`: `method.bind(recv)`; functions.go:138-202 the method body works on `this` (no copy in the callee)
+  | .ifaceCall => false     -- functions.go:185-201: dynamic dispatch reaches the body / the `this.$val`, `this.$get()` proxies with the boxed object itself
   | .result => false        -- statements.go:786  translateResults → translateImplicitConversion
   | .recv => false          -- expressions.go `$recv` result `[0]`
   | .mapLoad => false       -- expressions.go map index: `entry.v`
   | .unbox => false         -- `$assertType(x, T)` returns `x.$val`
+
+/-- the new-location contexts for which the translator emits NO copy (each one is a recorded defect) -/
+def nonCloning : List Ctx := [.box, .rangeOperand, .boundCall, .ifaceCall]
 
 /-- expressions: a location `x.path`, possibly passed through temporary contexts -/
 inductive Expr where
